@@ -164,25 +164,53 @@ Proof.
   - split; [intro H; inversion H|intros []].
 Qed.
 
+Lemma keys_reassign : forall r p m, keys (reassign r p m) = keys m.
+Proof.
+  intros r p m. induction m as [|[k q] t IH]; cbn [reassign keys map fst]; [reflexivity|].
+  destruct (N.eqb r k); cbn [keys map fst]; [reflexivity|]. f_equal. exact IH.
+Qed.
+
+Lemma lookup_reassign : forall r r' p m,
+  lookup r (reassign r' p m) =
+  if N.eqb r r' then match lookup r m with Some _ => Some p | None => None end else lookup r m.
+Proof.
+  intros r r' p m. induction m as [|[k q] t IH]; cbn [reassign lookup].
+  - destruct (N.eqb r r'); reflexivity.
+  - destruct (N.eqb r' k) eqn:E1; cbn [lookup].
+    + apply N.eqb_eq in E1. subst k. destruct (N.eqb r r'); reflexivity.
+    + destruct (N.eqb r k) eqn:E2.
+      * apply N.eqb_eq in E2. subst k. rewrite N.eqb_sym, E1. reflexivity.
+      * exact IH.
+Qed.
+
+Definition reassign_all (rs : list rid) (p : pid) (m : omap) : omap :=
+  fold_left (fun m r => reassign r p m) rs m.
+
 Definition insert_all (rs : list rid) (p : pid) (m : omap) : omap :=
   fold_left (fun m r => insert r p m) rs m.
 
-Lemma transfer_rids : forall v p m, transfer v p m = insert_all (rids_of v) p m.
+Lemma transfer_rids : forall v p m, transfer v p m = reassign_all (rids_of v) p m.
 Proof.
   intros v p. induction v as [r|fs IH|cs IH|] using val_ind'; intro m; cbn [transfer rids_of]; try reflexivity.
   - revert m. induction fs as [|f t IHt]; intro m; cbn [fold_left flat_map]; [reflexivity|].
-    inversion IH as [|? ? Hf Ht]; subst. unfold insert_all. rewrite fold_left_app.
-    fold (insert_all (rids_of f) p m). rewrite <- Hf. exact (IHt Ht _).
+    inversion IH as [|? ? Hf Ht]; subst. unfold reassign_all. rewrite fold_left_app.
+    fold (reassign_all (rids_of f) p m). rewrite <- Hf. exact (IHt Ht _).
   - revert m. induction cs as [|c t IHt]; intro m; cbn [fold_left flat_map]; [reflexivity|].
-    inversion IH as [|? ? Hc Ht]; subst. unfold insert_all. rewrite fold_left_app.
-    fold (insert_all (rids_of c) p m). rewrite <- Hc. exact (IHt Ht _).
+    inversion IH as [|? ? Hc Ht]; subst. unfold reassign_all. rewrite fold_left_app.
+    fold (reassign_all (rids_of c) p m). rewrite <- Hc. exact (IHt Ht _).
 Qed.
 
-Lemma transfer_all_rids : forall vs p m, transfer_all vs p m = insert_all (flat_map rids_of vs) p m.
+Lemma transfer_all_rids : forall vs p m, transfer_all vs p m = reassign_all (flat_map rids_of vs) p m.
 Proof.
   intros vs p. induction vs as [|v t IH]; intro m; cbn [transfer_all fold_left flat_map]; [reflexivity|].
-  unfold insert_all. rewrite fold_left_app. fold (insert_all (rids_of v) p m).
+  unfold reassign_all. rewrite fold_left_app. fold (reassign_all (rids_of v) p m).
   rewrite <- transfer_rids. exact (IH _).
+Qed.
+
+Lemma keys_reassign_all : forall rs p m, keys (reassign_all rs p m) = keys m.
+Proof.
+  intros rs p. induction rs as [|a t IH]; intro m; cbn [reassign_all fold_left]; [reflexivity|].
+  fold (reassign_all t p (reassign a p m)). rewrite IH. apply keys_reassign.
 Qed.
 
 Lemma lookup_insert_all_notin : forall rs p m r, ~ In r rs -> lookup r (insert_all rs p m) = lookup r m.
@@ -403,6 +431,18 @@ Proof.
   - apply memb_notin in E. apply lookup_insert_all_notin. exact E.
 Qed.
 
+Definition moved (old : option pid) (p : pid) : option pid :=
+  match old with Some _ => Some p | None => None end.
+
+Lemma lookup_reassign_all : forall rs p m r,
+  lookup r (reassign_all rs p m) = if memb r rs then moved (lookup r m) p else lookup r m.
+Proof.
+  intros rs p. induction rs as [|a t IH]; intros m r; cbn [reassign_all fold_left memb existsb]; [reflexivity|].
+  fold (reassign_all t p (reassign a p m)). fold (memb r t). rewrite IH, lookup_reassign.
+  destruct (N.eqb r a); cbn [orb]; destruct (memb r t); try reflexivity.
+  unfold moved. destruct (lookup r m); reflexivity.
+Qed.
+
 (* environment.rs:1703-1714: the request is refused without touching the backend *)
 Definition deniedb (s : state) (p : pid) (e : effect) : bool :=
   match resource_id e with
@@ -446,8 +486,8 @@ Proof.
   - rewrite effect_request_unfold. destruct (deniedb s p eff); [exact H|].
     destruct a as [res| |]; cbn zeta; try exact H. apply completion_inv. exact H.
   - unfold inv. cbn [owner]. apply completion_inv. exact H.
-  - unfold inv, handle_spawn. cbn [owner]. rewrite transfer_all_rids. apply nodup_insert_all. exact H.
-  - unfold inv, handle_deliver. cbn [owner]. rewrite transfer_rids. apply nodup_insert_all. exact H.
+  - unfold inv, handle_spawn. cbn [owner]. rewrite transfer_all_rids, keys_reassign_all. exact H.
+  - unfold inv, handle_deliver. cbn [owner]. rewrite transfer_rids, keys_reassign_all. exact H.
   - apply results_inv. exact H.
   - exact H.
   - exact H.
@@ -470,8 +510,8 @@ Lemma step_owner : forall s e r, inv s ->
       if deniedb s p eff then lookup r (owner s)
       else if memb r (issued_by e) then Some p else lookup r (owner s)
   | EComplete p res => if memb r (issued_by e) then Some p else lookup r (owner s)
-  | ESend _ t v => if memb r (transferred e) then Some t else lookup r (owner s)
-  | ESpawn _ vals => if memb r (transferred e) then Some (next_pid s) else lookup r (owner s)
+  | ESend _ t v => if memb r (transferred e) then moved (lookup r (owner s)) t else lookup r (owner s)
+  | ESpawn _ vals => if memb r (transferred e) then moved (lookup r (owner s)) (next_pid s) else lookup r (owner s)
   | EResults done => match lookup r (owner s) with
                      | Some q => if existsb (N.eqb q) done then None else Some q
                      | None => None
@@ -484,8 +524,8 @@ Proof.
     destruct a as [res| |]; cbn zeta; cbn [issued_by memb existsb]; try reflexivity.
     rewrite completion_owner. reflexivity.
   - cbn [owner issued_by]. apply completion_owner.
-  - unfold handle_spawn. cbn [owner transferred]. rewrite transfer_all_rids. apply lookup_insert_all.
-  - unfold handle_deliver. cbn [owner transferred]. rewrite transfer_rids. apply lookup_insert_all.
+  - unfold handle_spawn. cbn [owner transferred]. rewrite transfer_all_rids. apply lookup_reassign_all.
+  - unfold handle_deliver. cbn [owner transferred]. rewrite transfer_rids. apply lookup_reassign_all.
   - apply lookup_results. exact Hinv.
 Qed.
 
@@ -596,26 +636,36 @@ Proof.
 Qed.
 
 Theorem owner_after_send : forall h sender target v r,
-  (carries r v -> lookup r (owner (run (h ++ [ESend sender target v]))) = Some target) /\
+  (carries r v -> lookup r (owner (run h)) <> None ->
+     lookup r (owner (run (h ++ [ESend sender target v]))) = Some target) /\
+  (carries r v -> lookup r (owner (run h)) = None ->
+     lookup r (owner (run (h ++ [ESend sender target v]))) = None) /\
   (~ carries r v -> lookup r (owner (run (h ++ [ESend sender target v]))) = lookup r (owner (run h))).
 Proof.
   intros h sd t v r. rewrite run_snoc, (step_owner _ _ _ (run_inv h)). cbn [transferred].
   destruct (memb r (rids_of v)) eqn:E.
-  - apply memb_rids_carries in E. split; [reflexivity|intro H; contradiction].
-  - split; [|reflexivity]. intro H. apply memb_rids_carries in H. congruence.
+  - apply memb_rids_carries in E. unfold moved. repeat split.
+    + intros _ Hp. destruct (lookup r (owner (run h))); [reflexivity|congruence].
+    + intros _ Hn. rewrite Hn. reflexivity.
+    + intro H. contradiction.
+  - repeat split; try reflexivity; intro H; apply memb_rids_carries in H; congruence.
 Qed.
 
 Theorem owner_after_spawn : forall h caller vals r,
-  ((exists v, In v vals /\ carries r v) ->
+  ((exists v, In v vals /\ carries r v) -> lookup r (owner (run h)) <> None ->
      lookup r (owner (run (h ++ [ESpawn caller vals]))) = Some (next_pid (run h))) /\
+  ((exists v, In v vals /\ carries r v) -> lookup r (owner (run h)) = None ->
+     lookup r (owner (run (h ++ [ESpawn caller vals]))) = None) /\
   ((forall v, In v vals -> ~ carries r v) ->
      lookup r (owner (run (h ++ [ESpawn caller vals]))) = lookup r (owner (run h))).
 Proof.
   intros h c vals r. rewrite run_snoc, (step_owner _ _ _ (run_inv h)). cbn [transferred].
   destruct (memb r (flat_map rids_of vals)) eqn:E.
-  - apply memb_flat_carries in E. split; [reflexivity|]. intro H. destruct E as [v [Hin Hc]].
-    exfalso. exact (H v Hin Hc).
-  - split; [|reflexivity]. intro H. apply memb_flat_carries in H. congruence.
+  - apply memb_flat_carries in E. unfold moved. repeat split.
+    + intros _ Hp. destruct (lookup r (owner (run h))); [reflexivity|congruence].
+    + intros _ Hn. rewrite Hn. reflexivity.
+    + intro H. destruct E as [v [Hin Hc]]. exfalso. exact (H v Hin Hc).
+  - repeat split; try reflexivity; intro H; apply memb_flat_carries in H; congruence.
 Qed.
 
 Theorem creator_is_first_owner : forall h p n r,
@@ -656,9 +706,11 @@ Proof.
   - destruct (memb r (issued_by (EComplete q res))) eqn:E; [|contradiction].
     apply memb_in in E. injection Hnew as ->. split; [reflexivity|exact E].
   - destruct (memb r (transferred (ESpawn c vals))) eqn:E; [|contradiction].
-    cbn [transferred] in E. apply memb_flat_carries in E. injection Hnew as <-. split; [reflexivity|exact E].
+    cbn [transferred] in E. apply memb_flat_carries in E. unfold moved in Hnew.
+    destruct (lookup r (owner s)); [|discriminate]. injection Hnew as <-. split; [reflexivity|exact E].
   - destruct (memb r (transferred (ESend sd t v))) eqn:E; [|contradiction].
-    cbn [transferred] in E. apply memb_rids_carries in E. injection Hnew as ->. split; [reflexivity|exact E].
+    cbn [transferred] in E. apply memb_rids_carries in E. unfold moved in Hnew.
+    destruct (lookup r (owner s)); [|discriminate]. injection Hnew as ->. split; [reflexivity|exact E].
   - destruct (lookup r (owner s)) as [o|]; [|discriminate].
     destruct (existsb (N.eqb o) done); [discriminate|]. contradiction.
 Qed.
@@ -678,8 +730,10 @@ Proof.
     + destruct (deniedb (run h) q eff); [congruence|].
       destruct (memb r (issued_by (EEffect q eff a))); [discriminate|congruence].
     + destruct (memb r (issued_by (EComplete q res))); [discriminate|congruence].
-    + destruct (memb r (transferred (ESpawn c vals))); [discriminate|congruence].
-    + destruct (memb r (transferred (ESend sd t v))); [discriminate|congruence].
+    + destruct (memb r (transferred (ESpawn c vals))); [|congruence].
+      unfold moved in Enew. destruct (lookup r (owner (run h))); [discriminate|congruence].
+    + destruct (memb r (transferred (ESend sd t v))); [|congruence].
+      unfold moved in Enew. destruct (lookup r (owner (run h))); [discriminate|congruence].
     + destruct (lookup r (owner (run h))) as [o|] eqn:Eo; [|congruence].
       destruct (existsb (N.eqb o) done) eqn:Ex; [|congruence].
       apply existsb_eqb_in in Ex. exists done, o. repeat split; [exact Ex].
@@ -806,24 +860,20 @@ Record cinv (I : list rid) (s : state) : Prop := mk_cinv {
   ci_nodup : NoDup (closes (log s))
 }.
 
-(* a binding present after a step was present before, or its id was just issued by the backend —
-   provided the step transfers no id that is absent from the map *)
-Lemma step_owner_dom : forall s e r p, inv s -> stale_transferb s e = false ->
+(* a binding present after a step was present before, or its id was just issued by the backend
+   (a transfer never registers an id that is absent from the map) *)
+Lemma step_owner_dom : forall s e r p, inv s ->
   lookup r (owner (step s e)) = Some p -> lookup r (owner s) <> None \/ In r (issued_by e).
 Proof.
-  intros s e r p Hinv Hst Hnew. rewrite (step_owner _ _ _ Hinv) in Hnew.
-  assert (Htr : memb r (transferred e) = true -> lookup r (owner s) <> None).
-  { intro Hm. apply memb_in in Hm. unfold stale_transferb in Hst.
-    destruct (lookup r (owner s)) eqn:E; [discriminate|]. exfalso.
-    assert (Hex : existsb (absentb s) (transferred e) = true).
-    { apply existsb_exists. exists r. split; [exact Hm|]. unfold absentb. rewrite E. reflexivity. }
-    congruence. }
+  intros s e r p Hinv Hnew. rewrite (step_owner _ _ _ Hinv) in Hnew.
   destruct e as [q eff a|q res|c vals|sd t v|done|q|].
   - destruct (deniedb s q eff); [left; congruence|].
     destruct (memb r (issued_by (EEffect q eff a))) eqn:E; [right; apply memb_in; exact E|left; congruence].
   - destruct (memb r (issued_by (EComplete q res))) eqn:E; [right; apply memb_in; exact E|left; congruence].
-  - destruct (memb r (transferred (ESpawn c vals))) eqn:E; [left; exact (Htr eq_refl)|left; congruence].
-  - destruct (memb r (transferred (ESend sd t v))) eqn:E; [left; exact (Htr eq_refl)|left; congruence].
+  - left. destruct (memb r (transferred (ESpawn c vals))); [|congruence].
+    unfold moved in Hnew. destruct (lookup r (owner s)); [discriminate|discriminate].
+  - left. destruct (memb r (transferred (ESend sd t v))); [|congruence].
+    unfold moved in Hnew. destruct (lookup r (owner s)); [discriminate|discriminate].
   - left. destruct (lookup r (owner s)); [discriminate|discriminate].
   - left. congruence.
   - left. congruence.
@@ -833,9 +883,9 @@ Lemma issued_by_no_results : forall e r, In r (issued_by e) -> forall done, e <>
 Proof. intros e r H done He. subst e. destruct H. Qed.
 
 Lemma cinv_step : forall I s e, inv s -> cinv I s -> NoDup (I ++ issued_by e) ->
-  stale_transferb s e = false -> cinv (I ++ issued_by e) (step s e).
+  cinv (I ++ issued_by e) (step s e).
 Proof.
-  intros I s e Hinv [Hown Hcl Hdisj Hnd] Hfresh Hst.
+  intros I s e Hinv [Hown Hcl Hdisj Hnd] Hfresh.
   destruct (step_closes s e Hinv) as [rs [Hcs [Hrsnd Hrs]]].
   assert (Hfr : forall r, In r (issued_by e) -> ~ In r I).
   { intros r Hr HI. clear - Hfresh Hr HI. induction I as [|x t IH]; [destruct HI|].
@@ -844,13 +894,13 @@ Proof.
     - exact (IH Hf HI). }
   constructor.
   - intros r p Hl. apply in_or_app.
-    destruct (step_owner_dom s e r p Hinv Hst Hl) as [H|H]; [|right; exact H].
+    destruct (step_owner_dom s e r p Hinv Hl) as [H|H]; [|right; exact H].
     left. destruct (lookup r (owner s)) as [o|] eqn:E; [exact (Hown r o E)|congruence].
   - intros r Hr. rewrite Hcs in Hr. apply in_or_app. left. apply in_app_or in Hr. destruct Hr as [Hr|Hr].
     + exact (Hcl r Hr).
     + apply Hrs in Hr. destruct Hr as [d [p [_ [_ Hl]]]]. exact (Hown r p Hl).
   - intros r p Hl Hr. rewrite Hcs in Hr. apply in_app_or in Hr.
-    destruct (step_owner_dom s e r p Hinv Hst Hl) as [H|H].
+    destruct (step_owner_dom s e r p Hinv Hl) as [H|H].
     + destruct (lookup r (owner s)) as [o|] eqn:E; [|congruence]. destruct Hr as [Hr|Hr].
       * exact (Hdisj r o E Hr).
       * apply Hrs in Hr. destruct Hr as [d [q [-> [Hq Hlq]]]].
@@ -869,21 +919,16 @@ Proof.
   intro Hx. apply Hn. apply in_or_app. left. exact Hx.
 Qed.
 
-Lemma reachable_cinv : forall h, backend_fresh h -> ~ KnownF48 h -> cinv (issued h) (run h).
+Lemma reachable_cinv : forall h, backend_fresh h -> cinv (issued h) (run h).
 Proof.
-  intro h. induction h as [|e h IH] using rev_ind; intros Hf Hk.
+  intro h. induction h as [|e h IH] using rev_ind; intros Hf.
   - constructor; cbn; try (intros; discriminate); try (intros ? []); constructor.
   - unfold backend_fresh in Hf. rewrite issued_snoc in *. rewrite run_snoc.
-    assert (Hk' : anyb stale_transferb init (h ++ [e]) = false).
-    { unfold KnownF48 in Hk. destruct (anyb stale_transferb init (h ++ [e])); [exfalso; apply Hk; reflexivity|reflexivity]. }
-    apply anyb_snoc_false in Hk'. destruct Hk' as [Hkh Hke].
-    apply cinv_step; [apply run_inv| |exact Hf|exact Hke].
-    apply IH; [exact (nodup_app_l _ _ Hf)|]. unfold KnownF48. rewrite Hkh. discriminate.
+    apply cinv_step; [apply run_inv| |exact Hf]. apply IH. exact (nodup_app_l _ _ Hf).
 Qed.
 
-Theorem closed_at_most_once : forall h,
-  backend_fresh h -> ~ KnownF48 h -> NoDup (closes (log (run h))).
-Proof. intros h Hf Hk. exact (ci_nodup _ _ (reachable_cinv h Hf Hk)). Qed.
+Theorem closed_at_most_once : forall h, backend_fresh h -> NoDup (closes (log (run h))).
+Proof. intros h Hf. exact (ci_nodup _ _ (reachable_cinv h Hf)). Qed.
 
 (* ------------------------------------------------------------------ closed after termination *)
 
@@ -940,8 +985,10 @@ Proof.
     destruct (memb r (issued_by (EEffect q eff a))) eqn:E; [|congruence]. right. right. apply memb_in. exact E.
   - destruct (memb r (issued_by (EComplete q res))) eqn:E; [|congruence]. right. right. apply memb_in. exact E.
   - destruct (memb r (transferred (ESpawn c vals))) eqn:E; [|congruence]. left.
+    clear Hnew.
     rewrite (Htr c eq_refl eq_refl). split; [reflexivity|apply memb_in; exact E].
   - destruct (memb r (transferred (ESend sd t v))) eqn:E; [|congruence]. left.
+    clear Hnew.
     rewrite (Htr sd eq_refl eq_refl). split; [reflexivity|apply memb_in; exact E].
   - rewrite Hold in Hnew. destruct (existsb (N.eqb o) done) eqn:Ex; [|congruence].
     right. left. exists done. split; [reflexivity|apply existsb_eqb_in; exact Ex].
@@ -983,19 +1030,18 @@ Proof.
 Qed.
 
 (* `b = @{ !#'m { =H[_] => Ok } }, c = @{ !#'m { =H[_] => Ok } }, r = 0 __res_open__, H[r] b, !b, H[r] c, !c` :
-   close_resource(1) twice *)
+   close_resource(1) was called twice before the repair of F48 *)
 Definition witness_F48 : list event :=
   [ESpawn 0 [VTuple []]; ESpawn 0 [VTuple []]; EEffect 0 (Open 0) (ANow (Some (VRes 1)));
    ESend 0 1 (VTuple [VRes 1]); ETerminate 1; EOther; EResults [1];
    ESend 0 2 (VTuple [VRes 1]); EOther; ETerminate 2; EResults []; EResults [2]].
 
-Theorem closed_at_most_once_unconditional_refuted :
-  exists h, reports_only_terminated h /\ backend_fresh h /\ KnownF48 h /\
-            ~ NoDup (closes (log (run h))).
+(* since the repair of F48 the stale handle is not registered again: closed once *)
+Example stale_handle_resent_closed_once :
+  reports_only_terminated witness_F48 /\ backend_fresh witness_F48 /\
+  anyb stale_transferb init witness_F48 = true /\ closes (log (run witness_F48)) = [1].
 Proof.
-  exists witness_F48. repeat split; try reflexivity.
-  - unfold backend_fresh. vm_compute. constructor; [intros []|constructor].
-  - vm_compute. intro H. inversion H as [|? ? Hn _]; subst. apply Hn. left. reflexivity.
+  repeat split; try reflexivity. unfold backend_fresh. vm_compute. constructor; [intros []|constructor].
 Qed.
 
 (* `b = @{ !#'m {..use..}, !#'m {..} }, c = @{ !#'m { =H[_] => Ok } }, r = 0 __res_open__, H[r] b, H[r] c, ...` :
@@ -1029,14 +1075,13 @@ Definition good_history : list event :=
 
 Example good_history_meets_all_hypotheses :
   reports_only_terminated good_history /\ backend_fresh good_history /\
-  ~ KnownF47 good_history /\ ~ KnownF48 good_history /\ ~ KnownF49 good_history /\
+  ~ KnownF47 good_history /\ ~ KnownF49 good_history /\
   ~ KnownF10 good_history 2 1 /\ In 2 (dead (run good_history)) /\
   closes (log (run good_history)) = [1] /\
   log (run good_history) = [CExec 0 (Open 1); CExec 1 (Op 1 0); CExec 2 (Op 1 0); CClose 1].
 Proof.
   repeat split; try reflexivity.
   - unfold backend_fresh. vm_compute. constructor; [intros []|constructor].
-  - vm_compute. discriminate.
   - vm_compute. discriminate.
   - vm_compute. discriminate.
   - vm_compute. intros [H|H]; discriminate.
